@@ -25,12 +25,18 @@ namespace Edzed.Persist
 
 /-- a circuit as the application builds it: not started, every block has its own key
     (`str(block)`, never `edzed-…`), FSM tables accepted by `_build_tables`, blocks uninitialised -/
-structure Fresh (c : Circ) : Prop where
+structure Fresh0 (c : Circ) : Prop where
   idle : c.phase = .idle
   nodup : (keys c.blocks).Nodup
   plain : ∀ k ∈ keys c.blocks, reserved k = false
   valid : ∀ b ∈ c.blocks, KindValid b.kind
   uninit : ∀ b ∈ c.blocks, b.dyn.inited = false
+  untouched : ∀ b ∈ c.blocks, b.steps = 0 ∧ b.restored = false
+
+/-- …without events between the blocks (`Circ.start` and the histories do not follow `on_output` links; the
+    start-up of circuits WITH links is `Circ.startL`, see the last section) -/
+structure Fresh (c : Circ) : Prop extends Fresh0 c where
+  nolinks : ∀ b ∈ c.blocks, b.link = none
 
 theorem Fresh.inv {c : Circ} (h : Fresh c) (cal : Val → Option Bool) (now : Time) (mode : StartMode) :
     Inv (c.start cal now mode) :=
@@ -303,10 +309,10 @@ theorem restart_restores_block (c2 : Circ) (h2 : Fresh c2) (cal : Val → Option
       hexp, hkind]
     simpa using hre
   have h1 : (pass1 c2.blocks (cleanUnused c2.store c2.blocks) (readTs c2.store) cal now')[j]?
-      = some { b2 with dyn := d' } := by
+      = some { b2 with dyn := d', restored := true } := by
     simp [pass1, List.getElem?_map, hb2, hload]
   have h2' := pass2_inited cal now' _ h1 hsame.1
-  refine ⟨{ b2 with dyn := d' }, ?_, rfl, hsame⟩
+  refine ⟨{ b2 with dyn := d', restored := true }, ?_, rfl, hsame⟩
   unfold Circ.start
   simp only [h2.idle, bne_self_eq_false, Bool.false_eq_true, if_false]
   split <;> exact h2'
@@ -597,6 +603,96 @@ theorem unused_removed_reserved_kept (c0 : Circ) (h0 : Fresh c0) (cal : Val → 
           exact hun y hy hy1 (hy2.trans heq.symm)
     · exact ⟨hclean_res, hclean_un⟩
 
+/-! ### start-up with events between the blocks (`Circ.startL`) -/
+
+/-- the repair of `AddonPersistence.event`: the sync save after an event that leaves the block uninitialised
+    (a conditional event resolved to "no event" arriving before the block's early initialisation) does not
+    touch the storage — the entry saved by the previous run stays until it is restored -/
+theorem sync_save_skips_uninitialised_block (s : Storage) (b : Blk) (h : b.dyn.inited = false) :
+    syncSave s b = s := syncSave_uninit s b h
+
+/-- an `on_output` event through an `EventCond` that resolves to `None` changes nothing at all -/
+theorem conditional_no_event_changes_nothing (ts : Option Time) (cal : Val → Option Bool) (now : Time)
+    (S : IState) (i : Nat) (b : Blk) (l : Link) (hb : S.blocks[i]? = some b) (hl : b.link = some l)
+    (hc : (if b.dyn.out.truthy then l.etrue else l.efalse) = false) : emit ts cal now S i = S := by
+  unfold emit
+  simp only [hb, hl, hc, Bool.false_eq_true, if_false]
+
+/-- what `startL` is made of -/
+theorem startL_shape (c : Circ) (h : Fresh0 c) (cal : Val → Option Bool) (now : Time) :
+    ∃ S : IState, IInv (readTs c.store) cal now c.blocks (cleanUnused c.store c.blocks) S ∧
+      (c.startL cal now).blocks = S.blocks ∧
+      (((c.startL cal now).phase = .running ∧ (c.startL cal now).store = saveAll S.store S.blocks ∧
+          ∀ b ∈ S.blocks, b.dyn.inited = true) ∨
+       ((c.startL cal now).phase = .failed ∧ (c.startL cal now).store = S.store)) := by
+  have hf : ∀ b ∈ c.blocks, b.restored = false := fun b hb => (h.untouched b hb).2
+  have hs : ∀ b ∈ c.blocks, b.steps = 0 := fun b hb => (h.untouched b hb).1
+  have hI0 := iinv_initial (ts := readTs c.store) (cal := cal) (now := now) hs (cleanUnused c.store c.blocks)
+  have hI1 := iinv_foldl (turn1 (readTs c.store) cal now) (fun S i hI => iinv_turn1 h.nodup hf hI i)
+    (List.range c.blocks.length) hI0
+  have hI2 := iinv_foldl (turn2 (readTs c.store) cal now) (fun S i hI => iinv_turn2 h.nodup hf hI i)
+    (List.range c.blocks.length) hI1
+  unfold Circ.startL
+  simp only [h.idle, bne_self_eq_false, Bool.false_eq_true, if_false]
+  generalize List.foldl (turn2 (readTs c.store) cal now) _ _ = S2 at hI2
+  refine ⟨S2, hI2, ?_, ?_⟩
+  · split <;> rfl
+  · split
+    · next hc =>
+      simp only [Bool.and_eq_true, List.all_eq_true, decide_eq_true_eq] at hc
+      exact Or.inl ⟨rfl, rfl, hc.2⟩
+    · exact Or.inr ⟨rfl, rfl⟩
+
+/-- `startup_restores_every_valid_entry`: after a successful start-up — whatever `on_output` events (plain or
+    conditional, resolved to an event or to none) the blocks sent each other while they were restored, and
+    in whatever order the blocks were created — block `j` was restored from the storage exactly when its
+    entry in the ORIGINAL storage was present, not expired and accepted by `_restore_state`: a condition
+    that mentions neither the other blocks nor the creation order -/
+theorem startup_restores_every_valid_entry (c : Circ) (h : Fresh0 c) (cal : Val → Option Bool) (now : Time)
+    (hrun : (c.startL cal now).phase = .running) (j : Nat) (b0 b : Blk)
+    (hb0 : c.blocks[j]? = some b0) (hb : (c.startL cal now).blocks[j]? = some b) :
+    b.key = b0.key ∧ (b.restored = true ↔ (load b0 c.store (readTs c.store) cal now).isSome = true) := by
+  obtain ⟨S, hI, hbl, hcase⟩ := startL_shape c h cal now
+  rw [hbl] at hb
+  rcases hcase with ⟨_, _, hall⟩ | ⟨hph, _⟩
+  · have hsteps : b.steps ≠ 0 := by
+      intro h0
+      have := (hI.untouched j b hb h0).1
+      have hun := h.uninit b (List.mem_of_getElem? this)
+      rw [hall b (List.mem_of_getElem? hb)] at hun; simp at hun
+    obtain ⟨b0', h1, h2, h3⟩ := hI.touched j b hb hsteps
+    rw [hb0] at h1; simp only [Option.some.injEq] at h1; subst h1
+    rw [load_cleanUnused b0 c.blocks (List.mem_of_getElem? hb0)] at h3
+    exact ⟨h2, h3⟩
+  · rw [hph] at hrun; simp at hrun
+
+/-- after a successful start-up the storage holds the state of every persistent block -/
+theorem startup_saves_all (c : Circ) (h : Fresh0 c) (cal : Val → Option Bool) (now : Time)
+    (hrun : (c.startL cal now).phase = .running) :
+    ∀ b ∈ (c.startL cal now).blocks, b.persistent = true →
+      (c.startL cal now).store.get? b.key = getState b.kind b.dyn := by
+  obtain ⟨S, hI, hbl, hcase⟩ := startL_shape c h cal now
+  rcases hcase with ⟨_, hst, _⟩ | ⟨hph, _⟩
+  · intro b hb hp
+    rw [hbl] at hb
+    rw [hst]
+    exact saveAll_mem _ (by rw [hI.keys]; exact h.nodup) _ hb hp
+  · rw [hph] at hrun; simp at hrun
+
+/-- …and when the start-up fails, the entry of every persistent block that was not reached is still what the
+    previous run saved -/
+theorem failed_startup_keeps_untouched_entries (c : Circ) (h : Fresh0 c) (cal : Val → Option Bool) (now : Time)
+    (hfail : (c.startL cal now).phase = .failed) (j : Nat) (b : Blk)
+    (hb : (c.startL cal now).blocks[j]? = some b) (hs : b.steps = 0) (hp : b.persistent = true) :
+    (c.startL cal now).store.get? b.key = c.store.get? b.key := by
+  obtain ⟨S, hI, hbl, hcase⟩ := startL_shape c h cal now
+  rw [hbl] at hb
+  rcases hcase with ⟨hph, _, _⟩ | ⟨_, hst⟩
+  · rw [hph] at hfail; simp at hfail
+  · obtain ⟨h1, h2⟩ := hI.untouched j b hb hs
+    rw [hst, h2]
+    exact cleanUnused_keeps _ _ _ (Or.inr ⟨b, List.mem_of_getElem? h1, hp, rfl⟩)
+
 /-! ### non-vacuity: a concrete circuit (an Input and a timed FSM whose timed event is refused) -/
 
 def exCls : FsmCls :=
@@ -610,12 +706,18 @@ def exCirc : Circ :=
     store := [("edzed-app", .val (.int 1)), ("<Input 'gone'>", .val (.int 5))] }
 
 example : Fresh exCirc :=
-  ⟨rfl, by decide +kernel, by decide +kernel, by
+  ⟨⟨rfl, by decide +kernel, by decide +kernel, by
     intro b hb
     simp only [exCirc, List.mem_cons, List.not_mem_nil, or_false] at hb
     rcases hb with rfl | rfl
     · trivial
     · show exCls.valid = true; decide +kernel, by
+    intro b hb
+    simp only [exCirc, List.mem_cons, List.not_mem_nil, or_false] at hb
+    rcases hb with rfl | rfl <;> rfl, by
+    intro b hb
+    simp only [exCirc, List.mem_cons, List.not_mem_nil, or_false] at hb
+    rcases hb with rfl | rfl <;> exact ⟨rfl, rfl⟩⟩, by
     intro b hb
     simp only [exCirc, List.mem_cons, List.not_mem_nil, or_false] at hb
     rcases hb with rfl | rfl <;> rfl⟩
@@ -626,6 +728,21 @@ example :
     let c := run (fun _ _ => none) (exCirc.start (fun _ => none) 100 .ok) [.ev 1 (.named "e0" none), .fire 1]
     c.phase = .running ∧ c.store.get? "<GFsm 'f'>" = some (.fsm "s1" none []) ∧
     c.store.get? "<Input 'gone'>" = none ∧ c.store.get? "edzed-app" = some (.val (.int 1)) := by
+  decide +kernel
+
+/-- the start-up of the finding: `src` (restored value 0, falsy) is created first and sends
+    `EventCond('put', None)` to `dst`; both are restored — `dst` keeps `'saved'` -/
+def exLink : Circ :=
+  { blocks := [{ key := "<Input 'src'>", kind := .input (.int 5), persistent := true, sync := true, expiration := none,
+                 link := some ⟨1, true, false⟩ },
+               { key := "<Input 'dst'>", kind := .input (.str "dflt"), persistent := true, sync := true,
+                 expiration := none }],
+    store := [("<Input 'src'>", .val (.int 0)), ("<Input 'dst'>", .val (.str "saved"))] }
+
+example :
+    let c := exLink.startL (fun _ => none) 100
+    c.phase = .running ∧ c.blocks.map (·.restored) = [true, true] ∧
+    c.blocks.map (·.dyn.out) = [.int 0, .str "saved"] ∧ c.store.get? "<Input 'dst'>" = some (.val (.str "saved")) := by
   decide +kernel
 
 end Edzed.Persist
